@@ -6,7 +6,11 @@ ROOT = os.path.dirname(os.path.dirname(os.path.abspath(__file__)))
 props = [json.loads(l)["id"] for l in open(os.path.join(ROOT, "properties.jsonl"))]
 baseline = json.load(open("/root/.vp/BASELINE.json"))["cmd"] if os.path.exists("/root/.vp/BASELINE.json") else ""
 hooks_file = os.path.join(ROOT, "hooks_commits.txt")
-commits = [l.split()[0] for l in open(hooks_file) if l.strip() and not l.startswith("#")] if os.path.exists(hooks_file) else []
+import glob
+commits = []
+for hf in [hooks_file] + sorted(glob.glob(os.path.join(ROOT, "hooks_commits.d", "*.txt"))):
+    if os.path.exists(hf):
+        commits += [l.split()[0] for l in open(hf) if l.strip() and not l.startswith("#")]
 checks = []
 engines = {}
 for pid in props:
